@@ -1148,6 +1148,8 @@ class Session:
             return self.apply_compile(rec)
         if name == "explicit_forward_probe":
             return
+        if name == "query":
+            return self.apply_query(rec)
         op = getattr(AS, name)
         p = self.procs[pid]
         try:
@@ -1657,6 +1659,70 @@ class Session:
             self.probes.hit("retry_same")
         return out3
 
+    def apply_query(self, rec):
+        """C07: queries are pure too.  Runs a bundle of read-only API calls (pattern search,
+        navigation, forwarding of remembered cursors, printing) on one procedure, optionally with a
+        crash point inside, then re-checks every procedure and cursor of the session."""
+        pid = rec["on"]
+        p = self.procs[pid]
+        kind = rec.get("kind", "find")
+
+        def q():
+            out = []
+            if kind == "find":
+                for pat in ("for _ in _: _", "_ = _", "_ += _", "if _: _", "_: _"):
+                    try:
+                        cs = p.find(pat, many=True)
+                        out.append(len(cs))
+                        for c in cs[:3]:
+                            self.remember_cursors([c])
+                    except Exception as e:  # SchedulingError: no match
+                        out.append(type(e).__name__)
+            elif kind == "nav":
+                for c in list(p.body())[:6]:
+                    for f in ("next", "prev", "parent", "before", "after"):
+                        try:
+                            r = getattr(c, f)()
+                            out.append(type(r).__name__)
+                        except Exception as e:
+                            out.append(type(e).__name__)
+                    try:
+                        blk = c.as_block().expand()
+                        out.append(len(blk))
+                    except Exception as e:
+                        out.append(type(e).__name__)
+            elif kind == "forward":
+                for c, _snap in list(self.cursors)[:40]:
+                    try:
+                        out.append(type(p.forward(c)).__name__)
+                    except Exception as e:
+                        out.append(type(e).__name__)
+            else:  # print
+                out.append(stable_hash(str(p)))
+                out.append([str(a.name()) for a in p.args()])
+                try:
+                    out.append(p.is_instr())
+                except Exception as e:
+                    out.append(type(e).__name__)
+            return out
+
+        fault = rec.get("fault")
+        ref, n = self.crash.run(q)
+        if ref[0] == "exc" and not isinstance(ref[1], Exception):
+            raise ref[1]
+        self.log.log("query", on=pid, kind=kind, o=ref[0], h=stable_hash(json_path(ref[1])) if ref[0] == "ret" else type(ref[1]).__name__)
+        st = self.ops.setdefault("query", [0, 0])
+        st[0 if ref[0] == "ret" else 1] += 1
+        if fault:
+            k = 1 + int(fault["u"] * n) % max(1, n)
+            self.faults["F3_planned"] += 1
+            self.crash.run(q, k=k, exc=make_crash_exc("interrupt" if fault["kind"] == "F3i" else "crash", f"query@{k}"))
+            if self.crash.fired:
+                self.faults["F3_fired"] += 1
+            self.log.log("fault", f="query-crash", k=k, fired=self.crash.fired)
+        if self.checks.get("pure"):
+            self.check_pure("after", "query:" + kind)
+
     def apply_compile(self, rec):
         pid = rec["on"]
         p = self.procs[pid]
@@ -1835,6 +1901,13 @@ def generate_and_run(seed: int, cfg: dict, log_keep=False) -> dict:
             pid = r_ops.choice(live)
         else:
             pid = r_ops.choice([q for q in S.procs if q in gen_prog.LIB_PROCS[:4]] or live)
+        if not forced_op and r_ops.random() < cfg.get("query_rate", 0.0):
+            rec = {"op": "query", "on": pid, "out": None, "args": [], "kw": {}, "kind": r_ops.choice(["find", "nav", "forward", "print"])}
+            if r_fault.random() < fault_rate:
+                rec["fault"] = {"kind": r_fault.choice(["F3c", "F3i"]), "u": r_fault.random()}
+            data["ops"].append(rec)
+            S.apply(rec)
+            continue
         if not forced_op and r_ops.random() < cfg.get("compile_rate", 0.0):
             rec = {"op": "compile", "on": pid, "out": None, "args": [], "kw": {}}
             if r_fault.random() < max(fault_rate, cfg.get("compile_fault_rate", 0.0)):
